@@ -1,7 +1,7 @@
 """Histories of the queue manager: generation (seeded) and execution on the real programs
 through lib/daemon.py.  A history is a list of environment actions taken at quiescent
 points; what the daemon does in between is recorded, projected (qsproj) and judged by TLC."""
-import os, signal, random, json
+import os, time, signal, random, json
 import daemon, sandbox, qsproj
 from vlib import Infra
 
@@ -255,6 +255,27 @@ class Runner:
                         xe["VERIF_KILL_SIG"] = str(act[3])      # not killed: sent this signal (14 = its own 24-hour timer) at that instant
                     ctl.inject(m["body"], m["sender"], m["rcpts"], env_extra=xe)
                     ctl.run()
+                elif op == "inject_hold":
+                    # an injector that stalls before its k-th intercepted call (a client that stops sending) - until ("release",);
+                    # act[3]: started by a program that had SIGALRM blocked (the signal mask is inherited)
+                    m = h["messages"][act[1]]
+                    ctl.expect_noticed = 0
+                    ctl.inject(m["body"], m["sender"], m["rcpts"], hold_after=act[2], blocksig=[signal.SIGALRM] if len(act) > 3 and act[3] else None)
+                    ctl.run()
+                elif op == "signal_held":
+                    # the stalled injectors' own 24-hour timer goes off
+                    for pid in list(ctl.held):
+                        try:
+                            os.kill(pid, {"ALRM": signal.SIGALRM, "TERM": signal.SIGTERM}[act[1]])
+                        except OSError:
+                            pass
+                    time.sleep(0.05)
+                    ctl.run()
+                elif op == "release":
+                    ctl.held.clear()
+                    ctl.hold_after.clear()
+                    ctl.run()
+                    self.after_step()
                 elif op == "inject_fault":
                     # an injector whose envelope stream ends early (it cleans up after itself) and whose k-th call fails on top
                     m = h["messages"][act[1]]
